@@ -567,9 +567,42 @@ def pbp_voxel(run, sym_u, name, ops, seed, idx):
              ImageD11.indexing.loglevel)
     pbp.parglobal = parameters.parameters(wavelength=wvln, omegasign=1.0, wedge=0.0, chi=0.0, cell__a=cell[0], cell__b=cell[1],
                                           cell__c=cell[2], cell_alpha=cell[3], cell_beta=cell[4], cell_gamma=cell[5],
-                                          cell_lattice_symmetry="P")
+                                          **{"cell_lattice_[P,A,B,C,I,F,R]": "P"})
     pbp.ucglobal, pbp.symglobal = uc, grp
     ImageD11.indexing.loglevel = 10
+    if idx % 2 == 1:
+        # the worker set-up as the package does it: initializer(parfile, phase, symmetry, colfile) - called twice in this
+        # process, first for another symmetry (a voxel debugged after a run with the default "cubic"): the second call counts
+        import os, shutil, tempfile
+        from ImageD11 import columnfile
+        from ..common import WORK
+        os.makedirs(os.path.join(WORK, "tmp"), exist_ok=True)
+        dtmp = tempfile.mkdtemp(prefix="c16p_", dir=os.path.join(WORK, "tmp"))
+        try:
+            parf, colf = os.path.join(dtmp, "p.par"), os.path.join(dtmp, "pks.h5")
+            pbp.parglobal.saveparameters(parf)
+            cfp = columnfile.colfile_from_dict({"isel": np.ones(4), "omega": np.arange(4.0)})
+            with contextlib.redirect_stdout(io.StringIO()):
+                columnfile.colfile_to_hdf(cfp, colf, name="peaks")
+                other = "cubic" if name != "cubic" else "hexagonal"
+                pbp.initializer(parf, None, other, colf, loglevel=10)
+                pbp.initializer(parf, None, name, colf, loglevel=10)
+            run.count("pbp_initializer_called_twice")
+            if len(pbp.symglobal.group) != len(ops):
+                run.violation("initializer:stale-symmetry:" + name, "after initializer(..., %r, ...) following initializer(..., %r, ...) in "
+                              "the same process the worker's symmetry group has %d operators, the %s group has %d"
+                              % (name, other, len(pbp.symglobal.group), name, len(ops)), desc)
+            pbp.ucglobal.makerings(dsmax)
+        except Exception as e:
+            run.count("pbp_initializer_raised")
+            run.extra.setdefault("pbp_initializer_raised", "%s: %s" % (type(e).__name__, str(e)[:200]))
+            pbp.ucglobal, pbp.symglobal = uc, grp
+        finally:
+            try:
+                pbp.colglobal = None
+            except Exception:
+                pass
+            shutil.rmtree(dtmp, ignore_errors=True)
     try:
         with contextlib.redirect_stdout(io.StringIO()):
             res = pbp.idxpoint(0, 0, np.ones(len(om), bool), om, np.sin(np.radians(om)), np.cos(np.radians(om)),
@@ -664,6 +697,7 @@ def check(run, replay=None):
     run.require_counter("makeuniq_runs", 100)
     run.require_counter("pbp_voxels_returning_one_orientation", 3)
     run.require_counter("pbp_orientations_checked", 8)
+    run.require_counter("pbp_initializer_called_twice", 4)
     run.require_counter("uniq_grain_list_runs", 100)
     run.require_counter("getgroup_unknown_refused", 4)
     run.require_counter("groups_unchanged_after_use", 10)
